@@ -15,10 +15,12 @@ CLAIM = {
           "verification on, every byte the model of the full decoder obtains through readN is hashed whatever it is taken for, so whenever Decode accepts a stream that is exactly one "
           "sequence long by its own header everything after the header is a CRC codeword (C04_decode_accepts_only_codewords), hence Decode rejects a single-sequence file whose "
           "record region or stored CRC was hit by a burst of at most 16 bits, for every option set with checksums on and every read-buffer size (C04_decode_rejects_burst). "
+          "The verdict does not depend on what the decoder did before it was Reset onto the bytes (C04_verdict_after_reset_is_fresh: Reset leaves a new decoder). "
           "Per run: the Go CheckIntegrity's "
           "verdict and count equal the reference on arbitrary/mutated/chained byte strings "
           "(C04_reference, refuted for 12-byte headers and for 14-byte headers with a zero CRC field: known findings), and Decode as well as CheckIntegrity reject every "
-          "single-bit flip, sampled bursts, every truncation and non-sequence suffixes of small encoder outputs.",
+          "single-bit flip, sampled bursts, every truncation and non-sequence suffixes of small encoder outputs; every input also through a decoder that decoded or checked "
+          "another file before and was Reset (same verdict as a fresh one).",
   "note": NOTE_COMMON + " The CRC table/compute are the translated ones of C18. That Decode rejects a corrupted sequence that is followed by further sequences (where the records may be framed differently) is validated by the Go oracle, not proved."}
 
 KNOWN = {1: ("legacy_header_file_crc", "12-byte header: CheckIntegrity accepts a file CRC over the records only / rejects the CRC over the whole sequence"),
